@@ -110,6 +110,15 @@ class Universe:
             self.cls[n] = self.module.__dict__[n]
         return self
 
+    def borrow(self, other: "Universe") -> "Universe":
+        """Use the classes of an already exec-ed universe that declares the same
+        classes (possibly with another field order): this object then supplies
+        *its own* field-order knowledge with the other's real classes."""
+        self.cls = other.cls
+        self.module = other.module
+        sys.modules[other.name] = other.module
+        return self
+
     @staticmethod
     def render_class(s: CS) -> str:
         deco = "@dataclass(frozen=True" + (", slots=True" if s.slots else "") + ")"
